@@ -1,5 +1,120 @@
-"""thorough tier: extra configurations + canary self-test (filled in below)."""
+"""thorough tier = quick + (i) extra build configurations for rules that depend on them,
+(ii) the canary self-test: every canary patch of the property is applied to a scratch copy of
+/repo (outside /repo and /verif, removed with its build output), analysed with the same rules,
+and must produce the expected finding.  A canary that no longer applies (because /repo was
+edited) is skipped and counted; one that applies but does not fire makes the check exit 2
+("checker blind") — never a VIOLATION, since it says nothing about /repo.
+"""
+import json
+import os
+import shutil
+import subprocess
+import tempfile
+
+from . import build, registry
+from .core import Ctx
+
+VERIF = build.VERIF
+
+
+class Blind(build.InfraError):
+    pass
+
+
+def load_canaries():
+    p = os.path.join(VERIF, 'canaries', 'index.json')
+    with open(p) as f:
+        return json.load(f)
+
+
+def scratch_copy(repo, tag):
+    base = os.path.join(tempfile.gettempdir(), 'rsv-scratch-%s' % tag)
+    shutil.rmtree(base, ignore_errors=True)
+    os.makedirs(base)
+    dst = os.path.join(base, 'repo')
+    os.makedirs(dst)
+    for name in os.listdir(repo):
+        if name in ('target', '.git', 'benches'):
+            continue
+        s = os.path.join(repo, name)
+        if os.path.isdir(s):
+            shutil.copytree(s, os.path.join(dst, name))
+        else:
+            shutil.copy2(s, os.path.join(dst, name))
+    # benches are referenced by Cargo.toml ([[bench]]): copy the rust file only, not the fixtures
+    os.makedirs(os.path.join(dst, 'benches'), exist_ok=True)
+    for name in os.listdir(os.path.join(repo, 'benches')):
+        s = os.path.join(repo, 'benches', name)
+        if os.path.isfile(s):
+            shutil.copy2(s, os.path.join(dst, 'benches', name))
+    return base, dst
+
+
+def apply_patch(dst, patch):
+    r = subprocess.run(['patch', '-p1', '--no-backup-if-mismatch', '-s', '-f', '-i', patch], cwd=dst,
+                       stdout=subprocess.PIPE, stderr=subprocess.STDOUT, text=True)
+    return r.returncode == 0, r.stdout
+
+
+def run_canary(prop, can, repo):
+    """returns (status, detail): fired | skipped | blind | broken"""
+    from .check import run_rules
+    patch = os.path.join(VERIF, 'canaries', can['file'])
+    base, dst = scratch_copy(repo, '%s' % prop)
+    try:
+        ok, out = apply_patch(dst, patch)
+        if not ok:
+            return 'skipped', 'patch no longer applies'
+        ctx = Ctx(dst)
+        try:
+            try:
+                results = run_rules(prop, ctx, 'quick')
+            except build.InfraError as e:
+                return 'broken', 'canary does not build: %s' % str(e)[-300:]
+            keys = [f.key for res in results for f in res.findings]
+        finally:
+            ctx.close()
+        want = can['expect']
+        hit = [k for k in keys if all(w in k for w in ([want] if isinstance(want, str) else want))]
+        if hit:
+            return 'fired', hit[0]
+        return 'blind', 'expected a finding matching %r, got %r' % (want, keys)
+    finally:
+        shutil.rmtree(base, ignore_errors=True)
 
 
 def run(prop, ctx, results):
-    return {}
+    extra = {}
+    # (i) extra configurations
+    cfg_results = {}
+    for module, fn, cfgs in registry.PROPERTY_RULES.get(prop, []):
+        for cfg in cfgs:
+            if cfg == 'dev':
+                continue
+            rule = registry.load(module, fn)
+            res = rule(ctx, config=cfg)
+            res.rule = res.rule + '@' + cfg
+            for s in res.sites:
+                s['rule'] = res.rule
+            for f in res.findings:
+                f.key = f.key.replace(res.rule.split('@')[0] + ':', res.rule + ':', 1)
+                f.rule = res.rule
+            results.append(res)
+            cfg_results.setdefault(cfg, []).append(res.rule)
+    if cfg_results:
+        extra['extra_configurations'] = cfg_results
+    # (ii) canaries
+    cans = [c for c in load_canaries() if prop in c['properties']]
+    report = []
+    blind = []
+    for c in cans:
+        status, detail = run_canary(prop, c, ctx.repo)
+        report.append({'canary': c['name'], 'status': status, 'detail': detail, 'rule': c.get('rule')})
+        if status in ('blind', 'broken'):
+            blind.append((c['name'], status, detail))
+    extra['canaries'] = report
+    extra['canaries_fired'] = sum(1 for x in report if x['status'] == 'fired')
+    extra['canaries_skipped'] = sum(1 for x in report if x['status'] == 'skipped')
+    if blind:
+        raise Blind('canary self-test failed — the checker is blind or a canary is broken: %r' % blind)
+    return extra
